@@ -13,6 +13,8 @@ VERIF = os.path.dirname(os.path.dirname(os.path.abspath(__file__)))
 REPO = os.environ.get("VERIF_REPO", "/repo")
 COQ = os.path.join(VERIF, "coq")
 BUILD = os.path.join(VERIF, "build")
+os.makedirs(os.path.join(COQ, "gen"), exist_ok=True)  # generated files are not under version control: a fresh checkout has no coq/gen
+os.makedirs(BUILD, exist_ok=True)
 HARNESS = os.path.join(VERIF, "harness")
 EVIDENCE = os.path.join(VERIF, "evidence")
 REPLAYS = os.path.join(VERIF, "replays")
